@@ -204,7 +204,7 @@ def run(ctx):
     # reductions engage only here, and drop between-block terms exactly when the channel drifts)
     for cid, rng in ctx.cases([('big', i) for i in range(1 if ctx.tier == 'quick' else 8)]):
         mon.cid = cid
-        N = int(rng.choice([100001, 120001, 180000]))
+        N = int(rng.choice([100001, 180000, 300001]))
         drift = np.sort(rng.integers(1, 60000, size=N))
         noise = rng.integers(1, 4096, size=N)
         if rng.random() < 0.5:
